@@ -11,6 +11,12 @@ and the resulting Case is sent through the requests transport (loopback socket s
 and the ASGI transport (scope captured).  Every recorded request is judged by spec/WireJudge.tla with Wire's decoders
 (percent-decoding, UTF-8, JSON, style tables).  An independent Python reading of the same rules (urllib / json based) is
 compared verdict by verdict with TLC's; any difference is a machinery failure, never a verdict.
+
+Signature of a violation (DESIGN Appendix E), computed from the failing descriptor only:
+  C06:<aspect>:<pipeline>:<dialect>:<location>:<style>:explode=<e>:<type>:base=<b>:tmpl=<t>:<value feature>:<transports>
+A descriptor dimension is printed as `*` when every judged descriptor differing only there fails alike (most general pattern first);
+the value feature is the minimal character / type class that already fails alone at the same site (`any-value` when plain values
+fail); transports = all | not-requests | the failing ones.
 """
 from __future__ import annotations
 
@@ -652,9 +658,14 @@ def typed(v: dict):
     return v["k"], tuple(p(x) for x in v["items"]), tuple(text(k) for k in v["keys"])
 
 
+def _reject(token: str):
+    raise ValueError("outside the flat-JSON fragment: " + token)
+
+
 def typed_json(t: str):
+    """Flat JSON value (primitive, or array / object of primitives; integers only) as a typed projection, else None."""
     try:
-        j = json.loads(t, parse_float=lambda s: (_ for _ in ()).throw(ValueError("float")), parse_constant=lambda s: (_ for _ in ()).throw(ValueError(s)))
+        j = json.loads(t, parse_float=_reject, parse_constant=_reject)
     except (ValueError, RecursionError):
         return None
 
@@ -670,8 +681,8 @@ def typed_json(t: str):
         raise ValueError("deep")
 
     try:
-        if isinstance(x := j, list):
-            return "arr", tuple(p(i) for i in x), ()
+        if isinstance(j, list):
+            return "arr", tuple(p(i) for i in j), ()
         if isinstance(j, dict):
             return "obj", tuple(p(i) for i in j.values()), tuple(j.keys())
         return "prim", (p(j),), ()
@@ -688,8 +699,20 @@ def py_param_verdict(o: dict, fragment: str, want: dict, seg) -> tuple[str, str]
     if fragment != "T":
         return "U", fragment
     w = want_of(want)
-    if o["explicit"] and d["loc"] == "path" and w[0] == "prim" and o["pmode"] == "pct" and pct_upper(seg) == pct_upper(cps(w[1][0])):
-        return "T", ""
+    if o["explicit"] and d["loc"] == "path" and w[0] == "prim":
+        if o["pmode"] == "pct":
+            if pct_upper(seg) == pct_upper(cps(w[1][0])):
+                return "T", ""
+        else:
+            raw = w[1][0].encode("utf-8")
+            if not _BADPCT.search(raw) and list(unquote_to_bytes(raw)) == list(seg):
+                return "T", ""
+        raw = w[1][0].encode("utf-8")
+        if not _BADPCT.search(raw):
+            try:
+                unquote_to_bytes(raw).decode("utf-8")
+            except UnicodeDecodeError:
+                return "U", "explicit-text-not-utf8"
     if d["style"] == "json":
         if d["loc"] == "path":
             atoms = text1(seg, o["pmode"])
